@@ -935,6 +935,52 @@ fn change_patterns(n: usize, all: bool) -> Vec<Vec<u8>> {
     out
 }
 
+/// All transaction plans (composition x {sequential, each admissible concurrent pair}) x
+/// prefixes x change patterns for one DAG.
+fn cases_for_dag(
+    parents: &[Vec<usize>],
+    prefixes: &[usize],
+    patterns: &[Vec<u8>],
+    conc_swap: bool,
+    cases: &mut Vec<Case>,
+) {
+    for chunks in &compositions(parents.len()) {
+        // transaction plans: sequential, or one concurrent pair (j, j+1)
+        let mut plans: Vec<(Option<usize>, bool)> = vec![(None, false)];
+        let mut start = 0;
+        let mut bounds = vec![];
+        for &c in chunks {
+            bounds.push((start, start + c));
+            start += c;
+        }
+        for j in 0..chunks.len().saturating_sub(1) {
+            let (a0, a1) = bounds[j];
+            let (b0, b1) = bounds[j + 1];
+            let independent = (b0..b1).all(|node| parents[node].iter().all(|&p| !(a0..a1).contains(&p)));
+            if independent {
+                plans.push((Some(j), false));
+                if conc_swap {
+                    plans.push((Some(j), true));
+                }
+            }
+        }
+        for &(conc, swap) in &plans {
+            for &prefix in prefixes {
+                for pat in patterns {
+                    cases.push(Case {
+                        prefix,
+                        parents: parents.to_vec(),
+                        chunks: chunks.clone(),
+                        conc,
+                        swap,
+                        change: pat.clone(),
+                    });
+                }
+            }
+        }
+    }
+}
+
 fn enumerate_cases(
     max_n: usize,
     max_parents: usize,
@@ -944,44 +990,44 @@ fn enumerate_cases(
 ) -> Vec<Case> {
     let mut cases = vec![];
     for n in 1..=max_n {
-        let dags = all_dags(n, max_parents);
-        let comps = compositions(n);
         let patterns = change_patterns(n, n <= all_patterns_up_to);
-        for dag in &dags {
-            for chunks in &comps {
-                // transaction plans: sequential, or one concurrent pair (j, j+1)
-                let mut plans: Vec<(Option<usize>, bool)> = vec![(None, false)];
-                let mut start = 0;
-                let mut bounds = vec![];
-                for &c in chunks {
-                    bounds.push((start, start + c));
-                    start += c;
+        for dag in &all_dags(n, max_parents) {
+            cases_for_dag(&dag.parents, prefixes, &patterns, conc_swap, &mut cases);
+        }
+    }
+    cases
+}
+
+/// "Two chains" family: a chain of x commits off the root, then a chain of y commits that
+/// forks from the root or from the first commit of the first chain, for every (x, y) that is
+/// (a, b) or (b, a) with a in 1..=3, b in 2..=3, i.e. the long chain indexed before the short
+/// one and the reverse. Later commits (higher index positions) then have *lower* generation
+/// numbers than earlier ones. Every composition into transactions, every admissible concurrent
+/// pair in both merge orders, all-distinct change ids. Only x + y >= 5 is generated here: the
+/// smaller members are already part of the all-DAGs enumeration for n <= 4.
+fn two_chain_cases() -> Vec<Case> {
+    let mut cases = vec![];
+    let mut seen: BTreeSet<(usize, usize)> = BTreeSet::new();
+    for a in 1..=3usize {
+        for b in 2..=3usize {
+            for (x, y) in [(a, b), (b, a)] {
+                if x + y < 5 || !seen.insert((x, y)) {
+                    continue;
                 }
-                for j in 0..chunks.len().saturating_sub(1) {
-                    let (a0, a1) = bounds[j];
-                    let (b0, b1) = bounds[j + 1];
-                    let independent =
-                        (b0..b1).all(|node| dag.parents[node].iter().all(|&p| !(a0..a1).contains(&p)));
-                    if independent {
-                        plans.push((Some(j), false));
-                        if conc_swap {
-                            plans.push((Some(j), true));
-                        }
+                for fork_from_first in [false, true] {
+                    let mut parents: Vec<Vec<usize>> = vec![];
+                    for i in 0..x {
+                        parents.push(if i == 0 { vec![] } else { vec![i - 1] });
                     }
-                }
-                for &(conc, swap) in &plans {
-                    for &prefix in prefixes {
-                        for pat in &patterns {
-                            cases.push(Case {
-                                prefix,
-                                parents: dag.parents.clone(),
-                                chunks: chunks.clone(),
-                                conc,
-                                swap,
-                                change: pat.clone(),
-                            });
-                        }
+                    for i in 0..y {
+                        parents.push(if i == 0 {
+                            if fork_from_first { vec![0] } else { vec![] }
+                        } else {
+                            vec![x + i - 1]
+                        });
                     }
+                    let pattern: Vec<u8> = (0..(x + y) as u8).collect();
+                    cases_for_dag(&parents, &[0], &[pattern], true, &mut cases);
                 }
             }
         }
@@ -1054,12 +1100,16 @@ fn main() {
                 .into_iter()
                 .filter(|c| c.parents.len() == 4 && (c.change == vec![0, 1, 2, 3] || c.change == vec![0, 0, 0, 0])),
         );
+        // two chains of 2..3 commits (5..6 commits in total), see two_chain_cases()
+        v.extend(two_chain_cases());
         v
     } else {
         let mut v = enumerate_cases(4, 4, &[0, 6], 4, true);
         // N = 5, <= 4 parents, all compositions, all concurrent pairs in both merge orders,
         // 4 change patterns
         v.extend(enumerate_cases(5, 4, &[0], 0, true).into_iter().filter(|c| c.parents.len() == 5));
+        // the 6-commit members of the two-chains family (the 5-commit ones are included above)
+        v.extend(two_chain_cases().into_iter().filter(|c| c.parents.len() == 6));
         v
     };
 
@@ -1154,9 +1204,9 @@ fn main() {
     extra.insert(
         "bounds".into(),
         if ctx.quick() {
-            json!("all DAGs n<=4 (<=4 parents) x all compositions x {sequential, every admissible concurrent pair} x change patterns (all for n<=3, 4 shapes for n=4), no prefix; + 6-commit base segment: all DAGs n<=3 x all plans x both merge orders x all patterns, and all DAGs n=4 x all plans x {all distinct, all equal}")
+            json!("all DAGs n<=4 (<=4 parents) x all compositions x {sequential, every admissible concurrent pair} x change patterns (all for n<=3, 4 shapes for n=4), no prefix; + 6-commit base segment: all DAGs n<=3 x all plans x both merge orders x all patterns, and all DAGs n=4 x all plans x {all distinct, all equal}; + two-chains family: chains of x and y commits (x+y in 5..6, x,y in 2..3), second chain forking from the root or from the first commit of the first chain, all compositions x all concurrent pairs x both merge orders")
         } else {
-            json!("all DAGs n<=4 (<=4 parents) x all compositions x all concurrent pairs x both merge orders x all change patterns x {no prefix, 6-commit base segment}; + all DAGs n=5 (<=4 parents) x all compositions x all concurrent pairs x both merge orders x 4 change patterns, no prefix")
+            json!("all DAGs n<=4 (<=4 parents) x all compositions x all concurrent pairs x both merge orders x all change patterns x {no prefix, 6-commit base segment}; + all DAGs n=5 (<=4 parents) x all compositions x all concurrent pairs x both merge orders x 4 change patterns, no prefix; + the 6-commit two-chains family")
         },
     );
     let cov = Coverage {
